@@ -227,3 +227,25 @@ Fixpoint link_tables (fuel : nat) (get : Z -> Z -> content) (lref : Z) (nblk : n
     | _ => []
     end
   end.
+
+(* ---- hdatainfo.c GRgetpalinfo: the walk over all descriptors with the loop guard regenerated from the source ---- *)
+(** [ds]: the descriptors Hstartread / Hnextread(DFTAG_WILDCARD) deliver (NULL descriptors are skipped by them); the
+    end of the list is the failing Hnextread; ret_value is SUCCEED (0) while elements remain *)
+Fixpoint palinfo_loop (ds : list dd) (pal_count idx : Z) (out : list dd) : Z * list dd :=
+  match ds with
+  | [] => (idx, out)
+  | d :: t =>
+    if GRgetpalinfo_guard 0 idx pal_count =? 0 then (idx, out)
+    else if (dd_tag d =? DFTAG_IP8) || (dd_tag d =? DFTAG_LUT)
+         then palinfo_loop t pal_count (idx + 1) (out ++ [d])
+         else palinfo_loop t pal_count idx out
+  end.
+Definition gr_getpalinfo (ds : list dd) (pal_count : Z) : Z * list dd := palinfo_loop (live ds) pal_count 0 [].
+
+(* ---- mfdatainfo.c SDgetattdatainfo: the search for the attribute's Vdata, with the name comparison regenerated
+        from the source ----------------------------------------------------------------------------------------- *)
+Definition sd_attr_lookup (members : list (list Z * list Z * Z)) (attrname : list Z) : option Z :=
+  match find (fun m => bytes_eqb (fst (fst m)) attr_class && SDgetattdatainfo_match attrname (snd (fst m))) members with
+  | Some m => Some (snd m)
+  | None => None
+  end.
